@@ -24,7 +24,7 @@ from pyvc.gmodels import to_val  # noqa: F401
 from pyvc.plug_c17b import LISTS, MdoFun, NAME_LIST, TMdoFun, adapter_dim, adapter_linear, list_el, list_n
 from contracts import c17_consistency as K17  # noqa: F401  (ConsistencyInit: its construction precondition is checked in _build_constraints)
 from contracts import c17_formulations as F17  # noqa: F401  (schemas OP#c17 / DS#c17)
-from pyvc.values import TBool, TInt, TList, TNd, TObj, TRec, TStr, TVal, ValS, declare_ghost, str_lit, val_of_int
+from pyvc.values import TBool, TDict, TInt, TList, TNd, TObj, TRec, TStr, TVal, ValS, declare_ghost, str_lit, val_of_int
 
 IDFC = "gemseo.formulations.idf.IDF"
 BF = "gemseo.formulations.base_formulation.BaseFormulation"
@@ -206,7 +206,8 @@ MDA = "gemseo.mda.base_mda.BaseMDA"
 DISC = "gemseo.core.discipline.discipline.Discipline"
 DOPT = "gemseo.formulations.disciplinary_opt.DisciplinaryOpt"
 schema(DISC + ".io#c17b", {"input_grammar": TSet(TStr), "output_grammar": TSet(TStr)})  # a grammar is seen through `name in grammar` / iteration only: its set of names
-schema(MDA + "#c17b", {"coupling_structure": M17.CSREC, "io": TObj(DISC + ".io", schema_key=DISC + ".io#c17b")})
+schema(MDA + "#c17b", {"c17_declares_linear": TBool,  # model field: io.have_linear_relationships(...) of the MDA
+                       "coupling_structure": M17.CSREC, "io": TObj(DISC + ".io", schema_key=DISC + ".io#c17b")})
 schema(BF + "#unused", {"_BaseFormulation__disciplines": DISCS, "c17_top_level_disciplines": DISCS,  # ghost: what get_top_level_disciplines() returns (abstract in BaseFormulation)
                         "optimization_problem": TObj(OP, schema_key=OP + "#c17mdf")})
 schema(MDFC + "#update", {"_BaseFormulation__disciplines": DISCS, "mda": TObj(MDA, schema_key=MDA + "#c17b"), "optimization_problem": TObj(OP, schema_key=OP + "#c17mdf")})
@@ -401,7 +402,20 @@ from pyvc.plug_c17b import cs_of  # noqa: E402
 
 CSREC = M17.CSREC
 schema(IDFC + "#init", {"_BaseFormulation__disciplines": DISCS, "_settings": SETTINGS, "_parallel_exec": TNone, "coupling_structure": CSREC,
-                        "all_couplings": NAME_LIST, "normalize_constraints": TBool, "optimization_problem": TObj(OP, schema_key=OP + "#c17")})
+                        "all_couplings": NAME_LIST, "normalize_constraints": TBool, "optimization_problem": TObj(OP, schema_key=OP + "#c17"),
+                        "variable_sizes": TDict(TStr, TInt)})
+
+
+objective_adapter_is_linear = z3.Function("c17_objective_adapter_is_linear", INT, z3.BoolSort())  # of the formulation (object identity)
+
+
+def objective_is_linear(c):
+    """Whether the discipline adapter of the objective is linear: False for the MDA handed over by MDF (the factory model: a new MDA declares no
+    linear relationship), otherwise an uninterpreted fact about the formulation."""
+    d = c.arg("discipline") if "discipline" in c._args else None
+    if d is not None:
+        return c.old.discipline.c17_declares_linear
+    return objective_adapter_is_linear(z3.IntVal(c.arg("self").id))
 
 
 @register
@@ -411,7 +425,17 @@ class BuildObjectiveAbstract(Contract):
     params = {"objective_name": TStr}
     trusted = True
     description = ("assumed: _build_objective_from_disc only sets the objective of the optimization problem (no effect on the design space, on the "
-                   "constraints added so far, or on the formulation's attributes)")
+                   "constraints added so far, or on the formulation's attributes). Its precondition models the one of its call "
+                   "compute_linear_approximation(objective function of the FULL design vector, zeros(adapter.input_dimension)) with adapter.input_dimension = "
+                   "sum(formulation.variable_sizes.values()) (DisciplineAdapter.__compute_input_dimension with the sizes handed over by the generator): the "
+                   "linearisation point has the dimension of the design space iff variable_sizes has no other names than the design variables")
+
+    def requires(self, c):
+        s = c.old.self
+        vs, v = s.variable_sizes, s.optimization_problem.design_space._variables
+        x = z3.Const("x!bo", STR)
+        return [("linearisation-point-has-the-dimension-of-the-design-space",
+                 z3.Implies(objective_is_linear(c), z3.ForAll([x], z3.Implies(vs.member[x], v.member[x]), patterns=[vs.member[x]])))]
 
 
 @register
@@ -486,7 +510,7 @@ class IdfInit(Contract):
 # ============================================================================ MDF.__init__
 MDFSET = TRec("MDFSettingsC17", {"main_mda_name": TStr, "main_mda_settings": TVal})
 schema(MDFC + "#init", {"_BaseFormulation__disciplines": DISCS, "_settings": MDFSET, "mda": TObj(MDA, schema_key=MDA + "#c17b"),
-                        "optimization_problem": TObj(OP, schema_key=OP + "#c17mdf")})
+                        "optimization_problem": TObj(OP, schema_key=OP + "#c17mdf"), "variable_sizes": TDict(TStr, TInt)})
 
 
 @register
@@ -585,13 +609,14 @@ class DsFilter(Contract):
 
 # ============================================================================ DisciplinaryOpt: the design space is restricted to the inputs of the (chain of) disciplines
 from pyvc.plug_c17b import TRaw, TValTuple, inputs_of  # noqa: E402
+from pyvc.values import forall_pat  # noqa: E402
 
 GET_ALL_INPUTS = "gemseo.disciplines.utils.get_all_inputs"
 CHAIN = "gemseo.core.chains.chain.MDOChain"
 chain_of = z3.Function("c17_chain_of", DISCS.sort(), ValS)
 schema(DOPT + "#filter", {"_BaseFormulation__disciplines": DISCS, "_DisciplinaryOpt__top_level_disciplines": TValTuple(1), "optimization_problem": TObj(OP, schema_key=OP + "#c17mdf")})
 schema(DOPT + "#init", {"_BaseFormulation__disciplines": DISCS, "_DisciplinaryOpt__top_level_disciplines": TRaw,
-                        "optimization_problem": TObj(OP, schema_key=OP + "#c17mdf")})
+                        "optimization_problem": TObj(OP, schema_key=OP + "#c17mdf"), "variable_sizes": TDict(TStr, TInt)})
 
 
 def _in_list(lst, x, tag):
@@ -676,6 +701,13 @@ class DoptInit(Contract):
     def requires(self, c):
         return D2.wf(c.old.design_space)
 
+    def finding_regions(self, c):
+        L = c.old.disciplines
+        top = z3.If(L.n > 1, chain_of(DISCS.dt.mk(L.n, L.elems)), L.elems[0])
+        x = z3.Const("x!fr17", STR)
+        unused = z3.Exists([x], z3.And(D2.V(c.old.design_space).has(x), z3.Not(inputs_of(top)[x])))
+        return {"linear-objective-and-unused-design-variable": z3.And(objective_adapter_is_linear(z3.IntVal(c.arg("self").id)), unused)}
+
     def ensures(self, c):
         s1 = c.new.self
         L = c.old.disciplines
@@ -689,3 +721,89 @@ class DoptInit(Contract):
             ("the-discipline-or-the-chain-of-the-disciplines", top[0].term == expected),
             ("problem-holds-the-design-space", z3.BoolVal(s1.optimization_problem.design_space.ref == c.arg("design_space"))),
         ] + _dopt_kept(D2.V(c.old.design_space), D2.V(c.new.design_space), _tuple_inputs(top))
+
+
+# ============================================================================ BaseFormulation._remove_sub_scenario_dv_from_ds
+SUBFORM = TRec("SubFormulationC17", {"design_space": NAME_LIST})  # a sub-scenario's design space is only iterated: the list of its variable names
+SCEN = TRec("SubScenarioC17", {"formulation": SUBFORM})
+SCENS = TList(SCEN)
+schema(BF + "#subscen", {"c17_sub_scenarios": SCENS,  # ghost: what get_sub_scenarios() returns
+                         "optimization_problem": TObj(OP, schema_key=OP + "#c17mdf")})
+
+
+@register
+class GetSubScenariosAbstract(Contract):
+    targets = (BF + ".get_sub_scenarios",)
+    prop = ("C17",)
+    self_schema = BF + "#subscen"
+    returns = SCENS
+    trusted = True
+    description = ("assumed: get_sub_scenarios() returns the disciplines that are scenarios (ghost field c17_sub_scenarios; a sub-scenario is seen through "
+                   "the variable names of its formulation's design space), without any effect")
+
+    def ensures(self, c):
+        L = c.old.self.c17_sub_scenarios
+        return [("length", c.result.n == L.n), ("scenarios", c.result.elems == L.elems)]
+
+
+def _sub_names(scen_term):
+    """The variable names of the design space of a sub-scenario (n, elems)."""
+    t = SUBFORM.accessor("design_space")(SCEN.accessor("formulation")(scen_term))
+    return list_n(t), list_el(t)
+
+
+def _sub_among(L, x, upto):
+    s, v = z3.Int("s!sa"), z3.Int("v!sa")
+    n, el = _sub_names(L.elems[s])
+    return z3.Exists([s, v], z3.And(0 <= s, s < upto, 0 <= v, v < n, el[v] == x))
+
+
+def _sub_state(c, s1, upto):
+    v0, v1 = D2.V(_ds17(c.old)), D2.V(s1)
+    L = c.old.self.c17_sub_scenarios
+    s, v = z3.Int("s!ss"), z3.Int("v!ss")
+    x = z3.Const("x!ss", STR)
+    n, el = _sub_names(L.elems[s])
+    return [("variables-of-the-handled-sub-scenarios-are-removed", forall_pat([s, v], z3.Implies(z3.And(0 <= s, s < upto, 0 <= v, v < n), z3.Not(v1.has(el[v]))), el[v])),
+            ("only-entry-variables-with-their-definitions", z3.ForAll([x], z3.Implies(v1.has(x), z3.And(v0.has(x), v1.vals[x] == v0.vals[x])), patterns=[v1.has(x)])),
+            ("other-variables-kept", z3.ForAll([x], z3.Implies(z3.And(v0.has(x), z3.Not(_sub_among(L, x, upto))), v1.has(x)), patterns=[v0.has(x)]))]
+
+
+def _sub_outer_inv(c, k):
+    s = _ds17(c.new)
+    return D2.wf(s) + _sub_state(c, s, k)
+
+
+def _sub_inner_inv(c, l):
+    """While removing the variables of the current sub-scenario: only removals since the scan started (what was absent stays absent, what
+    remains keeps its definition), the names seen so far are gone, the variables that are none of them are still there."""
+    s1 = _ds17(c.new)
+    vp, v1 = D2.V(c.pre_locals["self"].optimization_problem.design_space), D2.V(s1)
+    n, el = _sub_names(c.locals["scenario"].term)
+    v, w = z3.Int("v!si"), z3.Int("w!si")
+    x = z3.Const("x!si", STR)
+    seen = z3.Exists([w], z3.And(0 <= w, w < l, el[w] == x))
+    return D2.wf(s1) + [
+        ("seen-variables-are-removed", forall_pat([v], z3.Implies(z3.And(0 <= v, v < l), z3.Not(v1.has(el[v]))), el[v])),
+        ("only-removals", z3.ForAll([x], z3.Implies(v1.has(x), z3.And(vp.has(x), v1.vals[x] == vp.vals[x])), patterns=[v1.has(x)])),
+        ("other-variables-kept", z3.ForAll([x], z3.Implies(z3.And(vp.has(x), z3.Not(seen)), v1.has(x)), patterns=[vp.has(x)]))]
+
+
+@register
+class RemoveSubScenarioDv(Contract):
+    """No design variable of a sub-scenario stays in the design space of the formulation; every other variable is kept with its definition;
+    the design space stays well-formed."""
+
+    targets = (BF + "._remove_sub_scenario_dv_from_ds",)
+    prop = ("C17",)
+    self_schema = BF + "#subscen"
+    modifies = ("self.optimization_problem.design_space",)
+    loops = {0: LoopSpec(anchor=None, modifies=("self.optimization_problem.design_space",), inv=_sub_outer_inv, local_types={"scenario": SCEN, "var": TStr}),
+             1: LoopSpec(anchor="scenario.formulation.design_space", modifies=("self.optimization_problem.design_space",), inv=_sub_inner_inv, local_types={"var": TStr})}
+
+    def requires(self, c):
+        return D2.wf(_ds17(c.old))
+
+    def ensures(self, c):
+        s1 = _ds17(c.new)
+        return D2.wf(s1) + _sub_state(c, s1, c.old.self.c17_sub_scenarios.n)
